@@ -1,16 +1,16 @@
-//! `VecDeque<T>` as a linear buffer with a moving head: capacity
-//! `verif::vcap()` *pushes* in total (no wrap-around, no growth).
+//! `VecDeque<T>` as a typed inline array of `CAP` optional slots with a
+//! moving head: at most `CAP` *pushes* in total (no wrap-around, no growth).
+//! No heap object and no union: every access is a typed array select/store.
 
-use {
-    crate::rawbuf::RawBuf,
-    ::std::{
-        fmt,
-        ptr,
-    },
-};
+use ::std::fmt;
+
+#[cfg(not(feature = "cap16"))]
+pub const CAP: usize = 8;
+#[cfg(feature = "cap16")]
+pub const CAP: usize = 16;
 
 pub struct VecDeque<T> {
-    buf: RawBuf<T>,
+    items: [Option<T>; CAP],
     head: usize,
     tail: usize,
 }
@@ -19,7 +19,7 @@ impl<T> VecDeque<T> {
     #[must_use]
     pub const fn new() -> Self {
         Self {
-            buf: RawBuf::empty(),
+            items: [const { None }; CAP],
             head: 0,
             tail: 0,
         }
@@ -41,16 +41,11 @@ impl<T> VecDeque<T> {
     }
 
     pub fn push_back(&mut self, value: T) {
-        if self.buf.cap == 0 {
-            self.buf = RawBuf::with_cap(crate::verif::vcap());
+        if self.tail >= CAP || self.tail >= crate::verif::vcap() {
+            crate::verif_capacity!("VERIF-CAPACITY: VecDeque: more pushes than the model capacity");
         }
 
-        if self.tail >= self.buf.cap {
-            crate::verif_capacity!("VecDeque: more pushes than VCAP");
-        }
-
-        unsafe { ptr::write(self.buf.ptr.add(self.tail), value) };
-
+        self.items[self.tail] = Some(value);
         self.tail += 1;
     }
 
@@ -59,11 +54,11 @@ impl<T> VecDeque<T> {
             return None;
         }
 
-        let v = unsafe { ptr::read(self.buf.ptr.add(self.head)) };
+        let v = self.items[self.head].take();
 
         self.head += 1;
 
-        Some(v)
+        v
     }
 
     pub fn pop_back(&mut self) -> Option<T> {
@@ -73,7 +68,7 @@ impl<T> VecDeque<T> {
 
         self.tail -= 1;
 
-        Some(unsafe { ptr::read(self.buf.ptr.add(self.tail)) })
+        self.items[self.tail].take()
     }
 
     #[must_use]
@@ -81,7 +76,7 @@ impl<T> VecDeque<T> {
         if self.head == self.tail {
             None
         } else {
-            Some(unsafe { &*self.buf.ptr.add(self.head) })
+            self.items[self.head].as_ref()
         }
     }
 
@@ -90,31 +85,24 @@ impl<T> VecDeque<T> {
         if self.head == self.tail {
             None
         } else {
-            Some(unsafe { &*self.buf.ptr.add(self.tail - 1) })
+            self.items[self.tail - 1].as_ref()
         }
     }
 
     #[must_use]
     pub fn get(&self, i: usize) -> Option<&T> {
         if i < self.len() {
-            Some(unsafe { &*self.buf.ptr.add(self.head + i) })
+            self.items[self.head + i].as_ref()
         } else {
             None
         }
     }
 
-    #[must_use]
-    pub fn as_slice(&self) -> &[T] {
-        unsafe {
-            ::std::slice::from_raw_parts(
-                self.buf.ptr.add(self.head),
-                self.tail - self.head,
-            )
+    pub fn iter(&self) -> Iter<'_, T> {
+        Iter {
+            q: self,
+            i: self.head,
         }
-    }
-
-    pub fn iter(&self) -> ::std::slice::Iter<'_, T> {
-        self.as_slice().iter()
     }
 
     pub fn clear(&mut self) {
@@ -122,13 +110,24 @@ impl<T> VecDeque<T> {
     }
 }
 
-impl<T> Drop for VecDeque<T> {
-    fn drop(&mut self) {
-        if ::std::mem::needs_drop::<T>() {
-            self.clear();
+pub struct Iter<'a, T> {
+    q: &'a VecDeque<T>,
+    i: usize,
+}
+
+impl<'a, T> Iterator for Iter<'a, T> {
+    type Item = &'a T;
+
+    fn next(&mut self) -> Option<&'a T> {
+        if self.i >= self.q.tail {
+            return None;
         }
 
-        self.buf.free();
+        let r = self.q.items[self.i].as_ref();
+
+        self.i += 1;
+
+        r
     }
 }
 
@@ -142,8 +141,14 @@ impl<T: Clone> Clone for VecDeque<T> {
     fn clone(&self) -> Self {
         let mut out = Self::new();
 
-        for x in self.iter() {
-            out.push_back(x.clone());
+        out.head = self.head;
+        out.tail = self.tail;
+
+        let mut i = 0;
+
+        while i < CAP {
+            out.items[i] = self.items[i].clone();
+            i += 1;
         }
 
         out
@@ -152,7 +157,23 @@ impl<T: Clone> Clone for VecDeque<T> {
 
 impl<T: PartialEq> PartialEq for VecDeque<T> {
     fn eq(&self, other: &Self) -> bool {
-        self.as_slice() == other.as_slice()
+        if self.len() != other.len() {
+            return false;
+        }
+
+        let mut i = 0;
+
+        while i < CAP {
+            if i < self.len()
+                && self.items[self.head + i] != other.items[other.head + i]
+            {
+                return false;
+            }
+
+            i += 1;
+        }
+
+        true
     }
 }
 
